@@ -40,3 +40,31 @@ Proof.
   destruct (do_call _ _ c ord) as [f' r].
   destruct (settle (k r) _ _) as [[[p' w'] o'] tr]. cbn [fst th_trace]. eauto.
 Qed.
+
+(** Every call-class fact lifts to every participant of every pool, finished or
+    not: at any point of any schedule, all the calls the participant has issued
+    so far are in the class. *)
+From Kismet Require Import Spec.ClassMon.
+
+Lemma mon_run_class ok tr : forall u, mon_run (k_step ok) u tr <> None ->
+  Forall (fun ev => match ev with EvCall c _ => ok c = true | _ => True end) tr.
+Proof.
+  induction tr as [|ev tr IH]; intros u H; [constructor|].
+  cbn [mon_run] in H. destruct (k_step ok u ev) as [u'|] eqn:Hs; [|congruence].
+  constructor; [|eapply IH; exact H].
+  destruct ev; auto. unfold k_step in Hs. destruct (ok c); [reflexivity|discriminate].
+Qed.
+
+Definition class_in_any_pool {A} (ok : call -> bool) (p : prog A) : Prop :=
+  forall (o : oracle) (f0 f : fs) (pool : list (thread A)) (j : nat) (sched : list nat) (t' : thread A),
+    nth_error pool j = Some (fst (th_start p o f0)) ->
+    nth_error (fst (run_sched sched (pool, f))) j = Some t' ->
+    Forall (fun ev => match ev with EvCall c _ => ok c = true | _ => True end) (th_trace t').
+
+Lemma allc_pool {A} ok (p : prog A) Q : allc ok p Q -> class_in_any_pool ok p.
+Proof.
+  intros H o f0 f pool j sched t' Hj Hj'.
+  pose proof (th_start_ok (k_step ok) p _ tt o f0 H) as Hok.
+  destruct (pool_wp (k_step ok) _ tt sched pool f j _ Hj Hok) as (t'' & Hj'' & (s & Hm & _)).
+  rewrite Hj' in Hj''. injection Hj'' as <-. eapply mon_run_class. rewrite Hm. discriminate.
+Qed.
